@@ -366,3 +366,76 @@ func genC10(g *Gen, tier string, emit func(op string, args ...string)) {
 		}
 	}
 }
+
+// ---------- facts: accept-length sets of the decoders and limits of the encoders (lengths 0..300) ----------
+
+func acceptLens(f func(a []byte) bool) []int {
+	var out []int
+	for n := 0; n <= 300; n++ {
+		ok := true
+		// three contents per length: zeros, 0xff, a pattern — a length is accepted only if all are
+		for _, fill := range []byte{0x00, 0xff, 0x5a} {
+			a := make([]byte, n)
+			for i := range a {
+				a[i] = fill
+			}
+			if !f(a) {
+				ok = false
+			}
+		}
+		if ok {
+			out = append(out, n)
+		}
+	}
+	return out
+}
+
+func init() {
+	factProbes = append(factProbes, func(f *factSet) {
+		add := func(name, codec string, fn func(a []byte) bool) {
+			lens := acceptLens(fn)
+			f.list(name, lens)
+			for n := 0; n <= 300; n++ {
+				f.addCase(name, n, "C10", "dec", codec, hx(make([]byte, n)))
+			}
+		}
+		add("acceptShort", "short", func(a []byte) bool { _, err := radius.Short(a); return err == nil })
+		add("acceptInteger", "integer", func(a []byte) bool { _, err := radius.Integer(a); return err == nil })
+		add("acceptInteger64", "integer64", func(a []byte) bool { _, err := radius.Integer64(a); return err == nil })
+		add("acceptIPAddr", "ipaddr", func(a []byte) bool { _, err := radius.IPAddr(a); return err == nil })
+		add("acceptIPv6Addr", "ipv6addr", func(a []byte) bool { _, err := radius.IPv6Addr(a); return err == nil })
+		add("acceptIFID", "ifid", func(a []byte) bool { _, err := radius.IFID(a); return err == nil })
+		add("acceptDate", "date", func(a []byte) bool { _, err := radius.Date(a); return err == nil })
+		add("acceptVSA", "vsa", func(a []byte) bool { _, _, err := radius.VendorSpecific(a); return err == nil })
+		// encoder limits: the value lengths for which the encoder succeeds
+		encLens := func(fn func(v []byte) bool) []int {
+			var out []int
+			for n := 0; n <= 300; n++ {
+				if fn(make([]byte, n)) {
+					out = append(out, n)
+				}
+			}
+			return out
+		}
+		f.list("encString", encLens(func(v []byte) bool { _, err := radius.NewString(string(v)); return err == nil }))
+		f.list("encBytes", encLens(func(v []byte) bool { _, err := radius.NewBytes(v); return err == nil }))
+		f.list("encVSA", encLens(func(v []byte) bool { _, err := radius.NewVendorSpecific(9, v); return err == nil }))
+		f.list("encTLV", encLens(func(v []byte) bool { _, err := radius.NewTLV(1, v); return err == nil }))
+		for n := 0; n <= 300; n++ {
+			f.addCase("encString", n, "C10", "string", hx(make([]byte, n)))
+			f.addCase("encBytes", n, "C10", "bytes", hx(make([]byte, n)))
+			f.addCase("encVSA", n, "C10", "vsa", "9", hx(make([]byte, n)))
+			f.addCase("encTLV", n, "C10", "tlv", "1", hx(make([]byte, n)))
+		}
+		// C04 / C11: plaintext lengths accepted by the encoders, ciphertext lengths accepted by UserPassword
+		sec, ra := []byte("s"), make([]byte, 16)
+		f.list("encUserPassword", encLens(func(v []byte) bool { _, err := radius.NewUserPassword(v, sec, ra); return err == nil }))
+		f.list("acceptUserPassword", acceptLens(func(a []byte) bool { _, err := radius.UserPassword(a, sec, ra); return err == nil }))
+		f.list("encTunnelPassword", encLens(func(v []byte) bool { _, err := radius.NewTunnelPassword(v, []byte{0x80, 1}, sec, ra); return err == nil }))
+		for n := 0; n <= 300; n++ {
+			f.addCase("encUserPassword", n, "C04", "newup", hx(make([]byte, n)), "73", hx(ra))
+			f.addCase("acceptUserPassword", n, "C04", "up", hx(make([]byte, n)), "73", hx(ra))
+			f.addCase("encTunnelPassword", n, "C11", "newtp", hx(make([]byte, n)), "8001", "73", hx(ra))
+		}
+	})
+}
